@@ -6,3 +6,9 @@ package server
 // goroutines of a database (clock, sweepers, persistence channel) from
 // starting, so that the harness can drive them deterministically.
 var vfNoBackground = false
+
+// vfSingleRound, when set by a verification harness, makes the timeout and
+// expiry sweeper loops (checkTimeOut / checkExpried) return after one round
+// instead of waiting for the next tick, so that a harness can run one real
+// round of the loop for a clock value of its choosing.
+var vfSingleRound = false
